@@ -613,6 +613,9 @@ impl Kanata {
         #[cfg(kanata_verif)]
         crate::verif_seam::LIVE_RELOAD_ATTEMPTS
             .fetch_add(1, ::core::sync::atomic::Ordering::Relaxed);
+        #[cfg(kanata_verif)]
+        crate::verif_seam::LIVE_RELOAD_LAST_IDX
+            .store(self.cur_cfg_idx, ::core::sync::atomic::Ordering::Relaxed);
         let cfg = match cfg::new_from_file(&self.cfg_paths[self.cur_cfg_idx]) {
             Ok(c) => c,
             Err(e) => {
